@@ -8,7 +8,15 @@
      spine/device_local.go  spine/subscription_manager.go  spine/binding_manager.go
      spine/nodemanagement*.go  spine/device_remote.go  spine/entity_remote.go
      spine/feature_local.go
-   Identifiers are numbers kept in bijection by the harness (harness/stack). *)
+   Identifiers are numbers kept in bijection by the harness (harness/stack).
+
+   Discovery and teardown are transcribed from /repo main with the C06 repairs (b136597: every
+   notification entry by its own state; bbf4b62: the removal cascade cleans the client caches with
+   the REMOTE DEVICE's address; 0fc9a5d: a discovery reply removes the entities it no longer lists)
+   and the C05 repairs (294987f / 030c7cf: a connected remote device never loses entity [0] /
+   NodeManagement feature 0), and with what DeviceLocal.HandleEvent does on the device-added
+   event (the address of the node-management feature the reply came in through is completed in
+   place).  Model/Discovery.v (C06) is an independent transcription of the same code. *)
 From Verif Require Import Base.Prelude.
 
 (* ------------------------------------------------------------------ addresses *)
@@ -331,6 +339,16 @@ Definition notify_subscribers (s : st) (sf : lfeat) (fn v : N) : list obs :=
 Definition mk_rfeat (en : rent) (d : disc_feat) : rfeat :=
   {| rf_dev := re_dev en; rf_id := df_id d; rf_type := df_type d; rf_role := df_role d |}.
 
+(* the features AddEntityAndFeatures attaches to the entity with address a: the ones the message
+   lists for it; the device information entity [0] always keeps a NodeManagement feature 0 (it is
+   appended when the message lists no feature 0 for [0]) *)
+Definition nm_rfeat (dev : option N) : rfeat :=
+  {| rf_dev := dev; rf_id := 0; rf_type := T_NODEMGMT; rf_role := RSpecial |}.
+
+Definition feats_for (en1 : rent) (a : eaddr) (m : disc_msg) : list rfeat :=
+  let fs := map (mk_rfeat en1) (filter (fun d => eqb_eaddr (df_ent d) a) (dm_feats m)) in
+  if eqb_eaddr a [0%N] && negb (existsb (fun f => N.eqb (rf_id f) 0) fs) then fs ++ [nm_rfeat (re_dev en1)] else fs.
+
 (* DeviceRemote.AddEntityAndFeatures: returns the new peer and the entities created *)
 Fixpoint add_entities (pe : peer) (m : disc_msg) (l : list disc_ent) : peer * list eaddr :=
   match l with
@@ -346,8 +364,7 @@ Fixpoint add_entities (pe : peer) (m : disc_msg) (l : list disc_ent) : peer * li
                  | None => dm_dev m
                  end in
       let en1 := {| re_dev := dev; re_addr := re_addr en; re_feats := [] |} in
-      let en2 := {| re_dev := dev; re_addr := re_addr en;
-                    re_feats := map (mk_rfeat en1) (filter (fun d => eqb_eaddr (df_ent d) (de_addr de)) (dm_feats m)) |} in
+      let en2 := {| re_dev := dev; re_addr := re_addr en; re_feats := feats_for en1 (de_addr de) m |} in
       let ents := if created then p_ents pe ++ [en2]
                   else map (fun x => if eqb_eaddr (re_addr x) (de_addr de) then en2 else x) (p_ents pe) in
       let pe1 := {| p_ski := p_ski pe; p_addr := p_addr pe; p_ents := ents |} in
@@ -364,73 +381,70 @@ Definition check_entity (pe : peer) (de : disc_ent) : bool :=
 
 Definition ev_entity (c : evchange) (pe : peer) (e : eaddr) : obs := OEvent EvEntity c (p_ski pe) (Some e) None None.
 
-(* CleanRemoteEntityCaches over all local features *)
-Definition clean_entity_caches (s : st) (en : rent) : st :=
-  match re_dev en with
+(* CheckEntityInformation(false, ei) of an entry announced as removed: the device information
+   entity cannot be removed *)
+Definition check_removed (pe : peer) (de : disc_ent) : bool :=
+  negb (eqb_eaddr (de_addr de) [0%N]) && check_entity pe de.
+
+(* CleanRemoteEntityCaches(remote device address, entity address) over all local features *)
+Definition clean_entity_caches (s : st) (dev : option N) (a : eaddr) : st :=
+  match dev with
   | None => s
   | Some d =>
-      let keep := fun a : faddr => negb (eqb_optN (fa_dev a) (Some d) && eqb_eaddr (fa_ent a) (re_addr en)) in
+      let keep := fun x : faddr => negb (eqb_optN (fa_dev x) (Some d) && eqb_eaddr (fa_ent x) a) in
       set_lfeats s (map (fun f => {| lf_ent := lf_ent f; lf_id := lf_id f; lf_type := lf_type f; lf_role := lf_role f;
                                      lf_ops := lf_ops f; lf_data := lf_data f;
                                      lf_subs := filter keep (lf_subs f); lf_binds := filter keep (lf_binds f) |}) (lfeats s))
   end.
 
-(* the "removed" branch: walks ALL entries of the message *)
-Fixpoint remove_entities (s : st) (p : N) (l : list disc_ent) : st * list obs * bool :=
-  match l with
-  | [] => (s, [], false)
-  | de :: r =>
-      match find_peer s p with
-      | None => (s, [], true)
-      | Some pe =>
-          if negb (check_entity pe de) then (s, [], true) else
-          match find_rent pe (de_addr de) with
-          | None => remove_entities s p r
-          | Some en =>
-              let pe1 := {| p_ski := p_ski pe; p_addr := p_addr pe;
-                            p_ents := filter (fun x => negb (eqb_eaddr (re_addr x) (de_addr de))) (p_ents pe) |} in
-              let s1 := set_peer s pe1 in
-              let '(s2, evs) := remove_for_entity s1 pe1 en in
-              let s3 := clean_entity_caches s2 en in
-              let '(s4, evs2, err) := remove_entities s3 p r in
-              (s4, ev_entity ChRemove pe en.(re_addr) :: evs ++ evs2, err)
-          end
+(* NodeManagement.removeRemoteEntity: the entity with address a of peer p, if it exists, with
+   everything that refers to it; the client caches are cleaned with the REMOTE DEVICE's address *)
+Definition remove_entity (s : st) (p : N) (a : eaddr) : st * list obs :=
+  match find_peer s p with
+  | None => (s, [])
+  | Some pe =>
+      match find_rent pe a with
+      | None => (s, [])
+      | Some en =>
+          let pe1 := {| p_ski := p_ski pe; p_addr := p_addr pe;
+                        p_ents := filter (fun x => negb (eqb_eaddr (re_addr x) a)) (p_ents pe) |} in
+          let s1 := set_peer s pe1 in
+          let '(s2, evs) := remove_for_entity s1 pe1 en in
+          (clean_entity_caches s2 (p_addr pe) a, ev_entity ChRemove pe (re_addr en) :: evs)
       end
   end.
 
-Definition all_checked (pe : peer) (l : list disc_ent) : bool := forallb (check_entity pe) l.
+(* processReplyDetailedDiscoveryData, last part: the entities (as they are after the additions)
+   that the reply does not list are removed, except the device information entity *)
+Fixpoint remove_unlisted (s : st) (p : N) (listed : list eaddr) (es : list eaddr) : st * list obs :=
+  match es with
+  | [] => (s, [])
+  | a :: r =>
+      if existsb (eqb_eaddr a) listed || eqb_eaddr a [0%N] then remove_unlisted s p listed r
+      else let '(s1, evs) := remove_entity s p a in
+           let '(s2, evs2) := remove_unlisted s1 p listed r in
+           (s2, evs ++ evs2)
+  end.
 
-(* processNotifyDetailedDiscoveryData (partial): outer loop over the entries *)
+(* processNotifyDetailedDiscoveryData (partial): every entry is handled by its own state *)
 Fixpoint notify_entries (s : st) (p : N) (m : disc_msg) (l : list disc_ent) : st * list obs * bool :=
   match l with
   | [] => (s, [], false)
   | de :: r =>
-      match de_state de with
-      | None => (s, [], true)
-      | Some SAdded =>
-          match find_peer s p with
-          | None => (s, [], true)
-          | Some pe =>
-              (* AddEntityAndFeatures(false, data) checks each entry as it goes; an error aborts *)
-              if negb (all_checked pe (dm_ents m)) then
-                (* entries before the offending one have already been applied *)
-                let ok := (fix pre (l : list disc_ent) := match l with
-                                                          | [] => []
-                                                          | d :: t => if check_entity pe d then d :: pre t else []
-                                                          end) (dm_ents m) in
-                let '(pe1, _) := add_entities pe m ok in
-                (set_peer s pe1, [], true)
-              else
-              let '(pe1, created) := add_entities pe m (dm_ents m) in
-              let s1 := set_peer s pe1 in
-              let '(s2, evs, err) := notify_entries s1 p m r in
-              (s2, map (ev_entity ChAdd pe) created ++ evs, err)
-          end
-      | Some SRemoved =>
-          let '(s1, evs, err) := remove_entities s p (dm_ents m) in
-          if err then (s1, evs, true) else
-          let '(s2, evs2, err2) := notify_entries s1 p m r in
-          (s2, evs ++ evs2, err2)
+      match de_state de, find_peer s p with
+      | None, _ => (s, [], true)
+      | Some _, None => (s, [], true)
+      | Some SAdded, Some pe =>
+          (* AddEntityAndFeatures(false, data restricted to this entry) *)
+          if negb (check_entity pe de) then (s, [], true) else
+          let '(pe1, created) := add_entities pe m [de] in
+          let '(s2, evs, err) := notify_entries (set_peer s pe1) p m r in
+          (s2, map (ev_entity ChAdd pe) created ++ evs, err)
+      | Some SRemoved, Some pe =>
+          if negb (check_removed pe de) then (s, [], true) else
+          let '(s1, evs) := remove_entity s p (de_addr de) in
+          let '(s2, evs2, err) := notify_entries s1 p m r in
+          (s2, evs ++ evs2, err)
       end
   end.
 
@@ -529,6 +543,57 @@ Definition disconnect (s : st) (p : N) : st * list obs :=
       (clean_device_caches s2 (p_addr pe), evs ++ [OEvent EvDevice ChRemove p None None None])
   end.
 
+(* DeviceLocal.HandleEvent on the device-added event of a discovery reply.  It takes the address of
+   the feature object the reply came in through (message.FeatureRemote: the peer's node-management
+   feature AS IT WAS BEFORE the reply, [pe]), completes a missing device part IN PLACE with the
+   device's address, and lets the local node management subscribe to that address
+   (SubscribeToRemote: recorded only if a connected device announces it).
+   The completed address object is shared: by the registry entries made through that feature
+   object, and by the remote tree as long as the reply did not re-create the features of [0]
+   ([listed0] = the reply lists entity [0]). *)
+Definition complete_one (p : N) (d : option N) (x : entry) : entry :=
+  if N.eqb (e_ski x) p && eqb_faddr (e_cli x) (nm_addr None)
+  then {| e_id := e_id x; e_srv := e_srv x; e_ski := e_ski x; e_cli := nm_addr d |}
+  else x.
+
+Definition complete_nm_addr (p : N) (d : option N) (l : list entry) : list entry := map (complete_one p d) l.
+
+(* does this reply complete the address, and which entries does it rewrite *)
+Definition reply_completes (pe pe1 : peer) : bool :=
+  match remote_feature pe (nm_addr None) with
+  | Some (_, rf) => match rf_dev rf, p_addr pe1 with None, Some _ => true | _, _ => false end
+  | None => match p_addr pe1 with Some _ => true | None => false end
+  end.
+
+Definition complete_nm_tree (pe : peer) (d : option N) : peer :=
+  {| p_ski := p_ski pe; p_addr := p_addr pe;
+     p_ents := map (fun en => if eqb_eaddr (re_addr en) [0%N]
+                              then {| re_dev := re_dev en; re_addr := re_addr en;
+                                      re_feats := map (fun rf => if N.eqb (rf_id rf) 0 && eqb_optN (rf_dev rf) None
+                                                                 then {| rf_dev := d; rf_id := rf_id rf; rf_type := rf_type rf; rf_role := rf_role rf |}
+                                                                 else rf) (re_feats en) |}
+                              else en) (p_ents pe) |}.
+
+Definition handle_device_added (s1 : st) (p : N) (pe pe1 : peer) (listed0 : bool) : st :=
+  let src_dev := match remote_feature pe (nm_addr None) with
+                 | Some (_, rf) => rf_dev rf
+                 | None => None
+                 end in
+  let sub_dev := match src_dev with Some d0 => Some d0 | None => p_addr pe1 end in
+  let s1a := if reply_completes pe pe1
+             then
+               let sa := set_binds (set_subs s1 (complete_nm_addr p (p_addr pe1) (subs s1)) (next_sub s1))
+                                   (complete_nm_addr p (p_addr pe1) (binds s1)) (next_bind s1) in
+               if listed0 then sa else set_peer sa (complete_nm_tree pe1 (p_addr pe1))
+             else s1 in
+  match sub_dev with
+  | Some d0 => match peer_by_addr s1a d0 with
+               | Some _ => upd_lfeat s1a [0%N] 0 (add_client_ref true (nm_addr (Some d0)))
+               | None => s1a
+               end
+  | None => s1a
+  end.
+
 (* ------------------------------------------------------------------ step *)
 Definition step (s : st) (o : op) : st * list obs :=
   match o with
@@ -576,12 +641,11 @@ Definition step (s : st) (o : op) : st * list obs :=
                       p_ents := p_ents pe |} in
         let '(pe1, created) := add_entities pe0 m (dm_ents m) in
         let s1 := set_peer s pe1 in
-        (* core handler (DeviceLocal.HandleEvent): node management subscribes to the remote node management *)
-        let s2 := match p_addr pe1 with
-                  | Some _ => upd_lfeat s1 [0%N] 0 (add_client_ref true (nm_addr (p_addr pe1)))
-                  | None => s1
-                  end in
-        (s2, OEvent EvDevice ChAdd p None None None :: map (ev_entity ChAdd pe1) created))
+        (* core handler (DeviceLocal.HandleEvent) on the device-added event *)
+        let s2 := handle_device_added s1 p pe pe1 (existsb (fun de => eqb_eaddr (de_addr de) [0%N]) (dm_ents m)) in
+        (* the reply describes the complete device *)
+        let '(s3, evs) := remove_unlisted s2 p (map de_addr (dm_ents m)) (map re_addr (p_ents pe1)) in
+        (s3, OEvent EvDevice ChAdd p None None None :: map (ev_entity ChAdd pe1) created ++ evs))
   | DiscoveryNotify p ctr ack m =>
       with_source s p (nm_addr None) (fun pe =>
         let src := nm_addr (p_addr pe) in
